@@ -29,6 +29,12 @@ PNext == PIntern \/ PGather \/ PPlace \/ PEmit
 (* the step-wise run and the one-shot operator agree, and the packing has the four properties
    (one invariant, so that the packing is computed once per state; PackClause names the failing one) *)
 PackOf == Pack(graph, 1, result[3], PackLimits)
+(* the named invariants, one by one (MC_OTLPack checks their conjunction PackInvariants) *)
+InternSoundInv == phase = "emitted" => InternSound(graph, 1, PackOf)
+EveryNodePlacedInv == phase = "emitted" => EveryNodePlaced(graph, 1, PackOf)
+TopologicalOrderInv == phase = "emitted" => TopologicalOrder(graph, PackOf)
+EdgesResolveInv == phase = "emitted" => EdgesResolve(graph, 1, PackOf)
+NoSilentWrapInv == phase = "emitted" => NoSilentWrap(graph, PackOf)
 PackInvariants ==
   phase = "emitted" =>
     LET P == PackOf
